@@ -2,6 +2,7 @@
 pub mod bft;
 pub mod cli;
 pub mod kit;
+pub mod node;
 pub mod pipes;
 pub mod prim;
 pub mod props;
